@@ -130,6 +130,30 @@ void harness(void)
 #endif
 #endif
 
+#if PMODE == 5
+    {
+        /* C12: a to_string that returned false (capacity symbolic, so "too small" is included) followed by ordinary use
+           of the same parser object without a new init: must behave like a fresh parser and touch nothing stale */
+        size_t cap = IN.cap;
+        ASSUME(cap <= TCAP);
+        EXACT_CHARS(out, TCAP);
+        for (size_t i = 0; i < TCAP; i++) out[i] = IN.outgarbage[i];
+#ifndef NATIVE_REPLAY
+        fmt_base = out; fmt_cap = cap;
+#endif
+        ASSUME(rv == RV_OK);
+        size_t sz = cap;
+        bool r1 = binson_parser_to_string(&p, out, &sz, false);
+        bool rr = binson_parser_reset(&p);
+        bool e1 = (ROOT == 1) ? binson_parser_go_into_object(&p) : binson_parser_go_into_array(&p);
+        bool n1 = binson_parser_next(&p);
+        bool v1 = binson_parser_verify(&p);
+        CHECK(rr && e1 && v1, "C12 after a failed or successful to_string the parser is reusable: reset, enter, verify succeed on a valid document");
+        CHECK(n1 == (NB > 2), "C12 after to_string + reset, next reports the first element exactly when there is one");
+        COVER(!r1 && n1, "main: to_string refused (buffer too small), parser reused");
+    }
+#endif
+
 #if PMODE == 4
     {
         EXACT_BYTES(bufa, NB);
